@@ -18,6 +18,8 @@ pub struct GCtx {
     pub has_leftrec: bool,
     pub mixed_ws: bool,
     pub ghash: u64,
+    pub types_hash: String,
+    pub types_text: String,
 }
 
 impl GCtx {
@@ -39,6 +41,8 @@ impl GCtx {
             has_memo,
             has_leftrec,
             mixed_ws: skipping && nonskipping,
+            types_hash: String::new(),
+            types_text: String::new(),
         })
     }
 }
